@@ -31,7 +31,12 @@ CloneViol(ev) ==
           \cup V(ev.cloneParent = ev.wantParent, "CloneHangsBelowTheSourcesParentOrTheDestinationRoot")
           \cup V(ev.srcAfter = ev.srcBefore, "SourceUntouched")
           \cup V(ev.reloadHasClone, "DestinationReloadsWithClone") \cup V(ev.reloadSame, "ReloadedCloneIsTheClone")
-          \cup V(ev.geomEqual, "IdenticalGeometry"))
+          \cup V(ev.geomEqual, "IdenticalGeometry")
+          \* the nodes that came along as bones are nodes of the source's kinds
+          \cup V(ev.cloneBoneKinds = ev.srcBoneKinds, "BonesCarryTheSourcesContent")
+          \* moving the clone's vertices moves the clone only; the moved vertices are what the destination saves
+          \cup V(ev.sourceKeptItsVertices /\ ev.srcAfterEdit = ev.srcBefore, "SourceUntouchedByEditingTheClone")
+          \cup V(ev.editReloads, "EditedCloneReloads"))
 Clauses(ev) ==
     CASE ev.e = "copy-step" -> StepViol(ev)
       [] ev.e = "clone" -> CloneViol(ev)
